@@ -125,7 +125,7 @@ func allMenus() map[string][]snip {
 		mkT(`"/tmp/c23-no-such-file"`, eS("/tmp/c23-no-such-file")), mkT(`"zz"`, eS("zz"))}
 	m["id"] = []snip{mk("/n/1", eID(idN1)), mk("/n/99(absent)", eID(idN99)), mk("/w/10", eID(idW10)), mk("/a/13", eID(idA13)),
 		mk("/r/20", eID(idR20)), mk("collection-id", eID(idC1)), mk("expression-id", eID(idE2)), mk("invalid-id", eID(idBad)),
-		mkT("/a/99(absent)", eID(idA99)), mkT("/r/99(absent)", eID(idR99)), mkT("collection-id(absent)", eID(idC99)), mkT("new-point-id", eID(idNewP))}
+		mk("/a/99(absent)", eID(idA99)), mk("/r/99(absent)", eID(idR99)), mk("collection-id(absent)", eID(idC99)), mkT("new-point-id", eID(idNewP))}
 	m["feature"] = []snip{mk("(find-feature /n/5)", ffN5), mk("(find-area /a/99(absent))", call("find-area", eID(idA99))),
 		mk("(find-feature /n/99)", call("find-feature", eID(idN99))),
 		mk("(find-feature /w/10)", ffW10), mk("(find-area /a/13)", faA13), mk("(find-relation /r/20)", call("find-relation", eID(idR20))),
